@@ -185,6 +185,15 @@ func (t *Table) Format(w io.Writer) error {
 				spanCols = append(spanCols, col)
 			}
 		}
+		if len(spanCols) == 0 {
+			// All of the spanned columns are shrink columns, but
+			// the span still doesn't fit. We have to put the
+			// extra width somewhere, so grow them anyway.
+			for col := cell.col; col < cell.col+cell.span; col++ {
+				w += ws[col]
+				spanCols = append(spanCols, col)
+			}
+		}
 		// Process the wider columns first.
 		sort.Slice(spanCols, func(i, j int) bool {
 			return ws[spanCols[i]] > ws[spanCols[j]]
